@@ -280,6 +280,13 @@ theorem same_sign_same_branch (p : Params) (z₁ z₂ : ℚ) (hs : 0 ≤ z₁ * 
   have h2 : |z₂| ≤ |z₁ + z₂| := sq_le_sq.mp (by nlinarith [sq_nonneg z₁])
   exact ⟨key z₁ h1, key z₂ h2⟩
 
+/-- `same_sign_same_branch` is not vacuous: `z₁ = z₂ = 1/4` on an 8×6 grid, all three on the
+transfer-function branch. -/
+example : ∃ (p : Params) (z₁ z₂ : ℚ), 0 ≤ z₁ * z₂ ∧ 0 ≤ p.lam ∧ 0 < lmax p ∧ z₁ ≠ 0 ∧ z₂ ≠ 0 ∧
+    impulseBranch { p with z := z₁ + z₂ } = false :=
+  ⟨{ kind := .fresnel, nx := 8, ny := 6, dx := 1/4, dy := 1/4, lam := 1/16, z := 0, n := 1, qx := 1, qy := 1,
+     sx := 1, sy := 1 }, 1/4, 1/4, by decide +kernel⟩
+
 /-! ## one propagator object used repeatedly: setters between calls
 
 A call computes `filter P e D` with `D` sampled from the parameters *in force* — nothing else.  The executable
@@ -553,6 +560,34 @@ theorem cutout_none_of_unit_padding (hk : p.kind = .fresnel) (hqx : p.qx = 1) (h
   rw [hk]
   simp only [hqx, hqy]
   exact ⟨padded_one _, padded_one _⟩
+
+/-- Bridge (ii): with `num_oversampling = 1` the sub-pixel mean has one term — the `meanOver` of the
+`fresnel_*` theorems is the un-averaged `fresnelD` of `fresnel_unitary`. -/
+theorem meanOver_one_subsample {σ : Type*} (s : σ) (f : σ → ℂ) : meanOver {s} f = f s :=
+  meanOver_singleton s f
+
+/-- Bridge (iv): in the regime the property names, the array the filter multiplies with is the sub-pixel mean of
+the native transfer function over the executable sample points — and nothing else. -/
+theorem regime_selects_sampled_transfer_function (hr : statedRegime p = true)
+    (Dir : Fin (my p) × Fin (mx p) → ℂ) (m : Fin (my p) × Fin (mx p)) :
+    modelD p Dir m = sampledTF p (ifftshiftIdx (my p) m.1) (ifftshiftIdx (mx p) m.2) :=
+  modelD_of_tf (statedRegime_tf hr) Dir m
+
+/-- … which for a Fresnel propagator without oversampling is the un-averaged `fresnelD` at the pixel's own
+frequency `2πν`, `k = 2πn/λ` (the `D` of `fresnel_unitary` / `fresnel_additive`). -/
+theorem regime_selects_fresnelD (hr : statedRegime p = true) (hk : p.kind = .fresnel) (hx : p.sx = 1)
+    (hy : p.sy = 1) (Dir : Fin (my p) × Fin (mx p) → ℂ) (m : Fin (my p) × Fin (mx p)) :
+    modelD p Dir m = fresnelD (waveK p) (p.z : ℝ)
+      (2 * Real.pi * ((nu p.dx (mx p) (ifftshiftIdx (mx p) m.2) 0 : ℚ) : ℝ))
+      (2 * Real.pi * ((nu p.dy (my p) (ifftshiftIdx (my p) m.1) 0 : ℚ) : ℝ)) := by
+  rw [modelD_of_tf (statedRegime_tf hr), sampledTF_of_no_oversampling hx hy]
+  unfold nativeAt
+  rw [hk]
+  rfl
+
+/-- Under-sampled transfer function: the filter multiplies with the impulse-response transfer function. -/
+theorem impulse_branch_selects_Dir (hb : impulseBranch p = true) (Dir : Fin (my p) × Fin (mx p) → ℂ) :
+    modelD p Dir = Dir := modelD_of_ir hb Dir
 
 /-- Every regime (either branch, any `Dir`): linear. -/
 theorem propagate_linear (Dir : Fin (my p) × Fin (mx p) → ℂ) (a b : ℂ) (x y : Fin p.ny × Fin p.nx → ℂ) :
